@@ -33,8 +33,10 @@ LEVEL_KEYS = {
     "c": [2, 1, 0],              # positions and keys coincide, reversed
     "d": [10, 20, 30, 40],
     None: [0, 1, 2],
+    "from": [1, 2, 3],
+    "to": [1, 2, 3],
 }
-NAMES = ["a", "b", "c", "d", None]
+NAMES = ["a", "b", "c", "d", None, "from", "to"]
 
 
 # ------------------------------------------------------------------ seeded uuid seam
@@ -74,6 +76,13 @@ def build(spec, pool_objs):
             return pd.DataFrame(vals, index=base.index, columns=spec["columns"])
         if al["how"] == "column_view":
             return base[al["column"]]
+        if al["how"] == "transposed":
+            # the same key tuples, position by position, under permuted level names
+            vals = np.array(spec["values"], dtype=np.float64)
+            idx = pd.MultiIndex.from_tuples([tuple(r) for r in spec["index"]], names=spec["names"])
+            if spec["kind"] == "series":
+                return pd.Series(vals[:, 0], index=idx, name=spec.get("name"))
+            return pd.DataFrame(vals, index=idx, columns=spec["columns"])
     names = spec["names"]
     rows = [tuple(r) for r in spec["index"]]
     if len(names) == 1:
@@ -190,6 +199,22 @@ def generate(prop, rng, tier):
     n_pool = rng.randint(3, 6)
     for i in range(n_pool):
         r = rng.random()
+        if pool and r < 0.22 and r >= 0.12:
+            base = rng.randrange(len(pool))
+            b = pool[base]
+            if "alias" not in b and len(b["names"]) >= 2 and None not in b["names"]:
+                k0 = [set(type(r[q]).__name__ for r in b["index"]) for q in range(len(b["names"]))]
+                names2 = list(reversed(b["names"]))
+                spec = {"alias": {"of": base, "how": "transposed"}, "kind": rng.choice(["series", "frame"]),
+                        "names": names2, "index": [list(r) for r in b["index"]]}
+                if spec["kind"] == "series":
+                    spec["values"] = [[cnt.next()] for _ in b["index"]]
+                    spec["name"] = "tr"
+                else:
+                    spec["columns"] = ["u"]
+                    spec["values"] = [[cnt.next()] for _ in b["index"]]
+                pool.append(spec)
+                continue
         if pool and r < 0.12:
             base = rng.randrange(len(pool))
             if "alias" not in pool[base]:
@@ -258,7 +283,32 @@ def generate(prop, rng, tier):
                           "cycles": [rng.choice([1e4, 1e5, 5e5, 1e6, 2e6, 1e7, 1e8]) for _ in range(n_sc)],
                           "load_level_name": rng.choice(["scenario", "scenario", None]),
                           "element_level_name": rng.choice(["element_id", "element_id", "scenario_x"])})
-    return {"world": NAME, "pool": pool, "steps": steps, "uuid_seed": rng.randint(1, 10 ** 6)}
+    tr = {"world": NAME, "pool": pool, "steps": steps, "uuid_seed": rng.randint(1, 10 ** 6)}
+    if rng.random() < 0.35:
+        # mean stress transformation with ONE kept Haigh diagram object and ONE kept collective object
+        # that its owner modifies in place between the calls
+        n_el = rng.randint(1, 3)
+        els = rng.sample([3, 5, 7, 11], n_el)
+        per_element = rng.random() < 0.7
+        cyc = list(range(rng.randint(1, 4)))
+        rows = [[e, c] for e in els for c in cyc] if per_element and rng.random() < 0.7 else [[None, c] for c in cyc]
+        tr["ms"] = {"elements": els, "M": [rng.choice([0.1, 0.2, 0.3, 0.5]) for _ in els],
+                    "M2": [rng.choice([0.03, 0.1, 0.2]) for _ in els], "per_element": per_element,
+                    "rows": rows, "columns": rng.choice(["from_to", "range_mean"]),
+                    "loops": [[float(rng.randint(-300, 100)), float(rng.randint(20, 400))] for _ in rows]}
+        extra = []
+        for _ in range(rng.randint(2, 5)):
+            if rng.random() < 0.55:
+                extra.append({"op": "ms_transform", "R_goal": rng.choice([-1.0, 0.0, -0.5, 0.5, -3.0])})
+            else:
+                extra.append({"op": "ms_mutate", "how": rng.choice(["column", "index", "cell"]), "seed": rng.randint(0, 10 ** 6)})
+        extra.append({"op": "ms_transform", "R_goal": rng.choice([-1.0, 0.0, -0.5])})
+        for e in extra:
+            steps.insert(rng.randint(0, len(steps)), e)
+        # keep the relative order of the ms steps as generated
+        ms_iter = iter(extra)
+        tr["steps"] = [next(ms_iter) if st["op"].startswith("ms_") else st for st in steps]
+    return tr
 
 
 # ------------------------------------------------------------------ reference model (B3)
@@ -383,9 +433,16 @@ def _run(trace, out, log):
                 return False
         return True
 
+    ms = MsHistory(trace["ms"]) if trace.get("ms") else None
     for k, st in enumerate(trace["steps"]):
         out.steps += 1
         op = st["op"]
+        if op.startswith("ms_"):
+            if ms is None:
+                continue
+            if not ms.step(st, k, out, log):
+                return
+            continue
         if op == "wc":
             if not _wc_step(st, k, out, log):
                 return
@@ -597,6 +654,131 @@ def _has_nan_keys(o):
         return True
 
 
+def goodman_scalar(sa, sm, M, M2, R_goal):
+    """FKM-Goodman transformation of one loop (amplitude sa > 0, mean sm) to R_goal,
+    written from the definition: follow the iso-damage polyline of the Haigh diagram
+    (slope 0 for R > 1, -M for -inf <= R <= 0, -M2 for 0 < R < 1) to the ray R = R_goal."""
+    cg = (1.0 + R_goal) / (1.0 - R_goal)
+    regions = [(-math.inf, -1.0, 0.0), (-1.0, 1.0, M), (1.0, math.inf, M2)]
+    c = sm / sa
+    for _ in range(6):
+        if c < cg:
+            lo, hi, m = next(r for r in regions if r[0] <= c < r[1])
+            target = min(cg, hi)
+        elif c > cg:
+            lo, hi, m = next(r for r in regions if r[0] < c <= r[1])
+            target = max(cg, lo)
+        else:
+            return sa
+        sa2 = (sa + m * sm) / (1.0 + m * target)
+        sa, sm, c = sa2, target * sa2, target
+    return sa
+
+
+class MsHistory:
+    """B4 as a history: one kept HaighDiagram, one kept collective object that is
+    modified in place by its owner between transformations."""
+
+    def __init__(self, spec):
+        import pylife.strength.meanstress as MST
+        import pylife.stress.collective  # noqa
+        self.spec = spec
+        self.rows = [list(r) for r in spec["rows"]]
+        self.loops = [list(l) for l in spec["loops"]]
+        els = spec["elements"]
+        if spec["per_element"]:
+            sens = pd.DataFrame({"M": spec["M"], "M2": spec["M2"]}, index=pd.Index(els, name="element_id"))
+        else:
+            sens = pd.Series({"M": spec["M"][0], "M2": spec["M2"][0]})
+        self.hd = MST.HaighDiagram.fkm_goodman(sens)
+        self.coll = self._frame()
+
+    def _index(self):
+        if self.rows and self.rows[0][0] is None:
+            return pd.Index([r[1] for r in self.rows], name="cycle_number")
+        return pd.MultiIndex.from_tuples([tuple(r) for r in self.rows], names=["element_id", "cycle_number"])
+
+    def _frame(self):
+        fr = [l[0] for l in self.loops]
+        to = [l[0] + l[1] for l in self.loops]
+        if self.spec["columns"] == "from_to":
+            return pd.DataFrame({"from": fr, "to": to}, index=self._index())
+        return pd.DataFrame({"range": [b - a for a, b in zip(fr, to)], "mean": [0.5 * (a + b) for a, b in zip(fr, to)]}, index=self._index())
+
+    def step(self, st, k, out, log):
+        import random as _r
+        if st["op"] == "ms_mutate":
+            rr = _r.Random(int(st["seed"]))
+            how = st["how"]
+            if how == "index" and self.rows[0][0] is not None and len(self.spec["elements"]) > 1:
+                # the owner re-labels its collective: element blocks in another order
+                els = list(dict.fromkeys(r[0] for r in self.rows))
+                perm = els[1:] + els[:1]
+                m = dict(zip(els, perm))
+                self.rows = [[m[r[0]], r[1] + 10] for r in self.rows]
+                self.coll.index = self._index()
+            elif how == "cell":
+                q = rr.randrange(len(self.loops))
+                self.loops[q][1] = float(rr.randint(20, 400))
+                new = self._frame()
+                for c in new.columns:
+                    self.coll.loc[self.coll.index[q], c] = new[c].iloc[q]
+            else:
+                self.loops = [[a * 0.5, b + 150.0] for a, b in self.loops]
+                new = self._frame()
+                for c in new.columns:
+                    self.coll[c] = new[c].to_numpy()
+            out.count("op:ms_mutate_in_place")
+            log.add(k, "ms_mutate", how)
+            return True
+        Rg = float(st["R_goal"])
+        before = snapshot(self.coll)
+        try:
+            res = self.hd.transform(self.coll, Rg)
+        except Exception as e:   # noqa
+            out.violate("exception", "derived:meanstress", {"step": k, "type": type(e).__name__, "msg": str(e)[:200]})
+            return False
+        if not snap_equal(snapshot(self.coll), before):
+            out.violate("B1-operands-unmodified", "derived", {"step": k, "calculation": "meanstress transform"})
+            return False
+        names = list(res.index.names)
+        rs = snapshot(res)
+        want = {}
+        for (e, c), (a, w) in zip(self.rows, self.loops):
+            sa, sm = 0.5 * w, a + 0.5 * w
+            for ei, el in enumerate(self.spec["elements"]):
+                if e is not None and el != e:
+                    continue
+                if e is None and not self.spec["per_element"] and ei > 0:
+                    continue
+                amp = goodman_scalar(sa, sm, self.spec["M"][ei], self.spec["M2"][ei], Rg)
+                key = (el if (self.spec["per_element"]) else None, c)
+                want[key] = 2.0 * amp
+        try:
+            pc = names.index("cycle_number")
+            pe = names.index("element_id") if "element_id" in names else None
+            ir = list(res.columns).index("range")
+        except ValueError:
+            out.violate("B4-derived-calculation", "index", {"step": k, "names": _n(names), "calculation": "meanstress"})
+            return False
+        seen = set()
+        for r, v in zip(rs["rows"], rs["values"]):
+            key = (r[pe] if pe is not None else None, r[pc])
+            seen.add(key)
+            w = want.get(key)
+            g = v[ir]
+            if w is None or g == "nan" or abs(float(g) - w) > 1e-9 * max(1.0, abs(w)):
+                out.violate("B4-derived-calculation", "meanstress", {"step": k, "key": list(key), "got": g, "want": w, "R_goal": Rg,
+                                                                     "names": _n(names)})
+                return False
+        if seen != set(want) or len(rs["rows"]) != len(want):
+            out.violate("B4-derived-calculation", "coverage", {"step": k, "rows": len(rs["rows"]), "want": len(want), "calculation": "meanstress"})
+            return False
+        out.count("op:ms_transform")
+        log.add(k, "ms_transform", Rg, rs["rows"], rs["values"])
+        return True
+
+
 def _wc_step(st, k, out, log):
     """B4: allowable cycles of per-element curves for per-scenario loads equal
     the element-by-element scalar evaluation."""
@@ -744,4 +926,4 @@ def describe(prop):
                             "droplevel calls are exercised only for 'operands unmodified' (the returned pair then deliberately has different indices; an exception there is counted, not judged)",
                             "two unnamed levels (one per operand) are only exercised for otherwise disjoint names, where the level order of the result is fixed",
                             "no exception is injected inside broadcast: C13 does not say operands survive a failed call"],
-            "required_probes": ["op:bc", "op:bc_scalar", "op:bc_array", "op:bc_drop", "op:derived_calculation", "probe:reentered_operand", "seam:uuid4_calls"]}
+            "required_probes": ["op:bc", "op:bc_scalar", "op:bc_array", "op:bc_drop", "op:derived_calculation", "op:ms_transform", "op:ms_mutate_in_place", "probe:reentered_operand", "seam:uuid4_calls"]}
